@@ -278,10 +278,21 @@ class PrimitiveAttributes:
             value = kwargs.get(key, None)
             if value is not None:
                 # convert passed data into type of defaults
-                self._data[key] = util.convert_like(value, default)
+                self._data[key] = self._own(util.convert_like(value, default))
         # make sure stored values are immutable after setting
         if not self._mutable:
             self._data.mutable = False
+
+    @staticmethod
+    def _own(value):
+        """
+        Arrays passed by the user stay the user's: store a copy
+        so a later edit of the passed array can't change the
+        parameters behind the back of the generated mesh.
+        """
+        if isinstance(value, np.ndarray):
+            return np.array(value)
+        return value
 
     @property
     def __doc__(self):
@@ -326,7 +337,9 @@ class PrimitiveAttributes:
             return
         elif key in self._defaults:
             if self._mutable:
-                self._data[key] = util.convert_like(value, self._defaults[key])
+                self._data[key] = self._own(
+                    util.convert_like(value, self._defaults[key])
+                )
             else:
                 raise ValueError(
                     "Primitive is configured as immutable! Cannot set attribute!"
